@@ -15,6 +15,7 @@ from __future__ import annotations
 from ..spec import rel_axis, lsq_inputs, arr, num, intv, strv, const, none, flag, opaque, estimator_fields, S, U_REL, U_INT, U_CAPTURE, ONE
 from .. import rules as R
 from ..model import norm_text
+from ..values import ustr
 from .common import LSQ, opts, base_kws, cfgname, lsq_configs
 from . import formulation as F
 from . import convexcommon as CC
@@ -52,7 +53,44 @@ def tolerances(rep, res, entry):
                          "intensities or captures are expressed in other units")
 
 
+def quantisation(rep, res, entry):
+    """rounding a quantity that carries physical units to a fixed precision is an absolute quantisation in the caller's units"""
+    seen = set()
+    for ev in res.events("lossy_map"):
+        if ev.d["how"] != "round":
+            continue
+        x = ev.d["of"]
+        k = (ev.loc, ev.text())
+        if k in seen or not (isinstance(x.unit, dict) and x.unit):
+            continue
+        seen.add(k)
+        rep.violated("R-QTY", "no absolute quantisation of a dimensioned quantity", where=ev.loc, construct=ev.text(), entry=entry,
+                     config=res.config,
+                     msg=f"a quantity in [{ustr(x.unit)}] is rounded to a fixed precision: the grid is expressed in the caller's units, so the "
+                         f"result of the twin problem in other units is not the rescaled result")
+
+
 def check(rep, an, tier):
+    # the estimator's wrappers of the geometry layer (anchored file estimator.py): targets reach it as given, unrounded
+    from ..spec import estimator_fields, flag
+    for meth, kw in (("range_of_solutions", dict(B=arr("B", S("N", "F"), U_CAPTURE, "LIGHT", sign="NONNEG"), relative=flag("relative", False),
+                                                 error=strv("error", "ignore"), n=intv("n", "NS"), eps=num("eps", ONE, sign="POS"))),
+                     ("in_hull", dict(B=arr("B", S("N", "F"), U_CAPTURE, "LIGHT", sign="NONNEG"), relative=flag("relative", False)))):
+        res = an.run(f"{CC.EST}.{meth}", kws=kw, self_fields=estimator_fields(K="vec", baseline="vec"), spec=CC.hooks(), config="relative=False")
+        entry = f"ReceptorEstimator.{meth}"
+        quantisation(rep, res, entry)
+        tolerances(rep, res, entry)
+        for ev in res.events("call"):
+            fn = ev.d["callee"]
+            if fn.module.name == CC.CONVEX and ev.fn.cls and fn.name in ("range_of_solutions", "in_hull_from_A"):
+                bound = dict(ev.d["kws"])
+                for i, a_ in enumerate(ev.d["args"]):
+                    if i < len(fn.params):
+                        bound.setdefault(fn.params[i], a_)
+                vb = bound.get("B")
+                if vb is not None:
+                    rep.check("R-QTY", "targets reach the geometry layer in capture units", None if vb.flat().unit is None else vb.flat().unit == U_CAPTURE,
+                              where=ev.loc, construct=f"{fn.name}(B, …) in {ev.fn.name}", entry=entry, config=res.config)
     spec = CC.hooks()
     geo = {"baseline": (["vec", None], ["vec", None]), "ub": (["finite", "inf"], ["finite", "inf"]),
            "lb": (["nonneg", "any"], ["nonneg", "any"]), "Brank": ([2, 1], [2, 1])}
@@ -71,6 +109,7 @@ def check(rep, an, tier):
             F.qty(rep, res, entry, allow=allow, subs=("mismatch", "literal"))
             F.typed_sites(rep, res, entry)
             tolerances(rep, res, entry)
+            quantisation(rep, res, entry)
             R.rule_dtype(rep, res, entry)
             items = F.ret_items(res)
             for i, lab in enumerate(("Xmin", "Xmax")):
@@ -88,6 +127,7 @@ def check(rep, an, tier):
         F.count_typed(rep, res, entry)
         F.typed_sites(rep, res, entry)
         tolerances(rep, res, entry)
+        quantisation(rep, res, entry)
         F.return_types(rep, res, entry, [("X", None, U_INT, None), ("prediction", None, U_CAPTURE, None)])
         R.rule_dtype(rep, res, entry)
         for po, obj, cons in F.final_problems(res):
